@@ -464,7 +464,7 @@ def gen_express_fault(r):
 
 def pathological_schema(r):
     """synthetic lexical stress: -> (name, text, label)"""
-    c = r.choice(["deep-scopes", "deep-if", "deep-expr", "long-remark", "long-string", "long-identifier", "many-entities", "deep-select", "deep-subtype",
+    c = r.choice(["deep-scopes", "deep-if", "deep-if", "deep-expr", "long-remark", "long-string", "long-identifier", "many-entities", "deep-select", "deep-subtype",
                   "use-cycle", "use-cycle", "self-use", "function-as-value", "long-binary", "long-encoded", "wide-expr", "deep-aggregate-type", "deep-index",
                   "deep-query", "many-params", "supertype-expr", "subtype-cycle", "select-cycle", "type-cycle", "long-where-label", "many-enum-items",
                   "rename-clash", "derive-cycle", "kind-confusion", "kind-confusion", "kind-confusion", "same-name-across-schemas", "same-name-across-schemas", "escape-heavy", "escape-heavy", "literal-as-name", "literal-as-name"])
@@ -476,7 +476,22 @@ def pathological_schema(r):
         body = "".join("FUNCTION f%d : INTEGER;\n" % k for k in range(n)) + "RETURN (1);\n" + "".join("END_FUNCTION;\nRETURN (1);\n" for _ in range(n - 1)) + "END_FUNCTION;\n"
         text = "SCHEMA patho;\n" + body + "END_SCHEMA;\n"
     elif c == "deep-if":
-        text = "SCHEMA patho;\nFUNCTION f : INTEGER;\n" + "IF TRUE THEN\n" * n + "RETURN (1);\n" + "END_IF;\n" * n + "RETURN (0);\nEND_FUNCTION;\nEND_SCHEMA;\n"
+        # statements nested n levels deep, in a function that has parameters and is used (a parameterless one is not printed by
+        # every generator): IF, the ELSE IF chain (EXPRESS has no ELSIF: every link nests), REPEAT, CASE, BEGIN..END and mixtures
+        how = r.choice(["if", "else-if", "repeat", "case", "begin", "mixed", "plain"])
+        if how == "plain":
+            body = "IF TRUE THEN\n" * n + "RETURN (1);\n" + "END_IF;\n" * n
+        else:
+            opn = {"if": ["IF a > 1 THEN\n"], "else-if": ["IF a > 1 THEN\nRETURN (2);\nELSE\n"], "repeat": ["REPEAT i%d := 1 TO a;\n"],
+                   "case": ["CASE a OF\n1 : RETURN (3);\nOTHERWISE :\n"], "begin": ["BEGIN\n"]}
+            cls = {"if": "END_IF;\n", "else-if": "END_IF;\n", "repeat": "END_REPEAT;\n", "case": "END_CASE;\n", "begin": "END;\n"}
+            kinds = [how] * n if how != "mixed" else [r.choice(["if", "else-if", "repeat", "case", "begin"]) for _ in range(n)]
+            body = "".join((opn[k][0] % d) if "%d" in opn[k][0] else opn[k][0] for d, k in enumerate(kinds)) + "RETURN (1);\n" + "".join(cls[k] for k in reversed(kinds))
+        if how == "plain":
+            text = "SCHEMA patho;\nFUNCTION f : INTEGER;\n" + body + "RETURN (0);\nEND_FUNCTION;\nEND_SCHEMA;\n"
+        else:
+            text = ("SCHEMA patho;\nFUNCTION f (a : INTEGER) : INTEGER;\n" + body + "RETURN (0);\nEND_FUNCTION;\n"
+                    "ENTITY e;\n x : INTEGER;\nWHERE\n w : f(x) > 0;\nEND_ENTITY;\nEND_SCHEMA;\n")
     elif c == "deep-expr":
         text = "SCHEMA patho;\nCONSTANT c : INTEGER := " + "(" * n + "1" + ")" * n + ";\nEND_CONSTANT;\nEND_SCHEMA;\n"
     elif c == "long-remark":
@@ -572,7 +587,7 @@ def _patho_more(r, c, n):
         L = r.choice([304, 10000, 100000]) // 8 * 8
         return "SCHEMA patho;\nCONSTANT c : STRING := \"" + "0000004A" * (L // 8) + "\";\nEND_CONSTANT;\nEND_SCHEMA;\n"
     if c == "wide-expr":
-        m = r.choice([100, 1000, 10000])
+        m = r.choice([100, 1000, 10000, 60000])
         op = r.choice([" + ", " * ", " AND ", " || "])
         term = "'s'" if op == " || " else ("TRUE" if op == " AND " else "1")
         ty = "STRING" if op == " || " else ("BOOLEAN" if op == " AND " else "INTEGER")
